@@ -826,6 +826,27 @@ WITNESSES = [
     dict(name="quiet-init-level-setter-uses-value", file=ELEM, silent=True, old="        self._head = self.elevation+self._init_level\n", new="        self._head = value + self._elevation\n"),
     dict(name="quiet-all-links-inlined", file=CORE, silent=True, old="            for link_name in all_links:\n                link = self._wn.get_link(link_name)\n                link_has_cv = False  # flow leaving",
          new="            for link_name in self._wn.get_links_for_node(tank_name):\n                link = self._wn.get_link(link_name)\n                link_has_cv = False  # flow leaving"),
+    # ---- round 2: the shapes of ref2_C05_r1 (look-up table, flipped geometry test, guard + head/else) and ref2_C05_r3 (flat one-way predicate with an
+    #      early continue, keyword / default constructor arguments, reopening head computed once)
+    dict(name="quiet-strict-relation-lookup-table", file=CTRL, silent=True, old='        relation = self._relation\n        if relation is Comparison.gt:\n            relation = Comparison.ge\n        if relation is Comparison.lt:\n            relation = Comparison.le\n',
+         new="        relation = self._INCLUSIVE_RELATION.get(self._relation, self._relation)\n",
+         also=[('    def evaluate(self):\n        self._backtrack = 0  # no backtracking', "    _INCLUSIVE_RELATION = {Comparison.gt: Comparison.ge, Comparison.lt: Comparison.le}\n\n" + '    def evaluate(self):\n        self._backtrack = 0  # no backtracking')]),
+    dict(name="quiet-strict-relation-subscript-table", file=CTRL, silent=True, old='        relation = self._relation\n        if relation is Comparison.gt:\n            relation = Comparison.ge\n        if relation is Comparison.lt:\n            relation = Comparison.le\n',
+         new="        relation = {Comparison.gt: Comparison.ge, Comparison.lt: Comparison.le, Comparison.ge: Comparison.ge, Comparison.le: Comparison.le,\n"
+             "                    Comparison.eq: Comparison.eq, Comparison.ne: Comparison.ne}[self._relation]\n"),
+    dict(name="lookup-table-keeps-lt-strict", file=CTRL, rule="R-C06-4", old='        relation = self._relation\n        if relation is Comparison.gt:\n            relation = Comparison.ge\n        if relation is Comparison.lt:\n            relation = Comparison.le\n',
+         new="        relation = {Comparison.gt: Comparison.ge, Comparison.lt: Comparison.lt}.get(self._relation, self._relation)\n"),
+    dict(name="quiet-geometry-test-flipped-guarded-chain", file=CTRL, silent=True, old='                if self._source_obj.vol_curve is None:\n                    self._backtrack = int(math.floor((cur_value - thresh_value)\n                             *math.pi/4.0*self._source_obj.diameter**2\n                             /self._source_obj.demand))\n                else: # a volume curve must be used instead\n                    if self._source_attr == \'head\':\n                        thresh_level = thresh_value - self._source_obj.elevation\n                        level = cur_value - self._source_obj.elevation\n                    elif self._source_attr == \'level\':\n                        thresh_level = thresh_value\n                        level = cur_value\n                    else:\n                        raise NotImplementedError("Pressure tank value conditions with a " + \n                                                     "volume curve have not been implemented.")\n                    \n                    cur_value_volume = self._source_obj.get_volume(level)\n                    thresh_volume = self._source_obj.get_volume(thresh_level)\n                    \n                    self._backtrack = int(math.floor((cur_value_volume \n                                                      - thresh_volume) \n                                                      / self._source_obj.demand))\n',
+         new='                tank = self._source_obj\n                demand = tank.demand\n                if tank.vol_curve is not None:  # a volume curve must be used\n                    if self._source_attr not in (\'head\', \'level\'):\n                        raise NotImplementedError("Pressure tank value conditions with a volume curve have not been implemented.")\n                    if self._source_attr == \'head\':\n                        thresh_level = thresh_value - tank.elevation\n                        level = cur_value - tank.elevation\n                    else:  # level\n                        thresh_level = thresh_value\n                        level = cur_value\n                    self._backtrack = int(math.floor((tank.get_volume(level) - tank.get_volume(thresh_level)) / demand))\n                else:  # cylindrical tank\n                    self._backtrack = int(math.floor((cur_value - thresh_value)*math.pi/4.0*tank.diameter**2/demand))\n'),
+    dict(name="flipped-geometry-level-branch-takes-head", file=CTRL, rule="R-C06-4", old='                if self._source_obj.vol_curve is None:\n                    self._backtrack = int(math.floor((cur_value - thresh_value)\n                             *math.pi/4.0*self._source_obj.diameter**2\n                             /self._source_obj.demand))\n                else: # a volume curve must be used instead\n                    if self._source_attr == \'head\':\n                        thresh_level = thresh_value - self._source_obj.elevation\n                        level = cur_value - self._source_obj.elevation\n                    elif self._source_attr == \'level\':\n                        thresh_level = thresh_value\n                        level = cur_value\n                    else:\n                        raise NotImplementedError("Pressure tank value conditions with a " + \n                                                     "volume curve have not been implemented.")\n                    \n                    cur_value_volume = self._source_obj.get_volume(level)\n                    thresh_volume = self._source_obj.get_volume(thresh_level)\n                    \n                    self._backtrack = int(math.floor((cur_value_volume \n                                                      - thresh_volume) \n                                                      / self._source_obj.demand))\n',
+         new='                tank = self._source_obj\n                demand = tank.demand\n                if tank.vol_curve is not None:  # a volume curve must be used\n                    if self._source_attr not in (\'head\', \'level\'):\n                        raise NotImplementedError("Pressure tank value conditions with a volume curve have not been implemented.")\n                    if self._source_attr == \'head\':\n                        thresh_level = thresh_value - tank.elevation\n                        level = cur_value - tank.elevation\n                    else:  # level\n                        thresh_level = thresh_value - tank.elevation\n                        level = cur_value - tank.elevation\n                    self._backtrack = int(math.floor((tank.get_volume(level) - tank.get_volume(thresh_level)) / demand))\n                else:  # cylindrical tank\n                    self._backtrack = int(math.floor((cur_value - thresh_value)*math.pi/4.0*tank.diameter**2/demand))\n'),
+    dict(name="quiet-flat-one-way-keyword-ctors", file=CORE, silent=True, old="                link_has_cv = False  # flow leaving the tank (start node = tank)\n                if isinstance(link, Pipe):\n                    if link.check_valve:\n                        if link.end_node_name == tank_name:\n                            continue\n                        else:\n                            link_has_cv = True\n                elif isinstance(link, Pump):\n                    if link.end_node_name == tank_name:\n                        continue\n                    else:\n                        link_has_cv = True\n\n                close_control_action = _InternalControlAction(link, '_internal_status', LinkStatus.Closed, 'status')\n                open_control_action = _InternalControlAction(link, '_internal_status', LinkStatus.Open, 'status')\n\n",
+         new="                one_way = isinstance(link, Pump) or (isinstance(link, Pipe) and link.check_valve)\n                if one_way and link.end_node_name == tank_name:\n                    continue  # can only fill the tank\n                link_has_cv = bool(one_way)\n\n                close_control_action = _InternalControlAction(target_obj=link, internal_attribute='_internal_status',\n                                                              value=LinkStatus.Closed, property_attribute='status')\n                open_control_action = _InternalControlAction(property_attribute='status', target_obj=link, internal_attribute='_internal_status',\n                                                             value=LinkStatus.Open)\n\n",
+         also=[("                close_condition = ValueCondition(tank, 'head', Comparison.le, min_head)\n                close_control_1 = Control(condition=close_condition, then_action=close_control_action,\n                                          priority=ControlPriority.medium)\n", "                close_condition = ValueCondition(source_obj=tank, source_attr='head', relation=Comparison.le,\n                                                 threshold=min_head)\n                close_control_1 = Control(close_condition, close_control_action)\n"), ('            min_head = tank.min_level + tank.elevation\n', '            min_head = tank.min_level + tank.elevation\n            min_head_reopen = min_head + self._Htol\n'), ("open_condition_1 = ValueCondition(tank, 'head', Comparison.ge, min_head + self._Htol)", "open_condition_1 = ValueCondition(tank, 'head', threshold=min_head_reopen, relation=Comparison.ge)"), ("open_condition_2a = RelativeCondition(tank, 'head', Comparison.le, other_node, 'head')", "open_condition_2a = RelativeCondition(source_obj=tank, source_attr='head', relation=Comparison.le,\n                                                          threshold_obj=other_node, threshold_attr='head')"), ("open_condition_2b = ValueCondition(tank, 'head', Comparison.le, min_head + self._Htol)", "open_condition_2b = ValueCondition(source_obj=tank, source_attr='head', relation=Comparison.le, threshold=min_head_reopen)"), ('                    open_control_2 = Control(condition=open_condition_2, then_action=open_control_action,\n                                             priority=ControlPriority.high)\n                    open_control_2._control_type = _ControlType.postsolve\n                    tank_controls.append(open_control_2)\n\n            # Now take care', '                    open_control_2 = Control(open_condition_2, open_control_action, ControlPriority.high)\n                    open_control_2._control_type = _ControlType.postsolve\n                    tank_controls.append(open_control_2)\n\n            # Now take care')]),
+    dict(name="keyword-close-condition-wrong-relation", file=CORE, rule="R-C06-3", old="close_condition = ValueCondition(tank, 'head', Comparison.le, min_head)",
+         new="close_condition = ValueCondition(threshold=min_head, source_obj=tank, source_attr='head', relation=Comparison.ge)"),
+    dict(name="keyword-action-wrong-attribute", file=CORE, rule="R-C06-3", old="                link_has_cv = False  # flow leaving the tank (start node = tank)\n                if isinstance(link, Pipe):\n                    if link.check_valve:\n                        if link.end_node_name == tank_name:\n                            continue\n                        else:\n                            link_has_cv = True\n                elif isinstance(link, Pump):\n                    if link.end_node_name == tank_name:\n                        continue\n                    else:\n                        link_has_cv = True\n\n                close_control_action = _InternalControlAction(link, '_internal_status', LinkStatus.Closed, 'status')\n                open_control_action = _InternalControlAction(link, '_internal_status', LinkStatus.Open, 'status')\n\n",
+         new="                one_way = isinstance(link, Pump) or (isinstance(link, Pipe) and link.check_valve)\n                if one_way and link.end_node_name == tank_name:\n                    continue  # can only fill the tank\n                link_has_cv = bool(one_way)\n\n                close_control_action = _InternalControlAction(target_obj=link, internal_attribute='status',\n                                                              value=LinkStatus.Closed, property_attribute='_internal_status')\n                open_control_action = _InternalControlAction(property_attribute='status', target_obj=link, internal_attribute='_internal_status',\n                                                             value=LinkStatus.Open)\n\n"),
     dict(name="quiet-tank-alias-hoisted-area", file=CTRL, silent=True,
          old="                if self._source_obj.vol_curve is None:\n                    self._backtrack = int(math.floor((cur_value - thresh_value)\n                             *math.pi/4.0*self._source_obj.diameter**2\n                             /self._source_obj.demand))\n",
          new="                tank = self._source_obj\n                if tank.vol_curve is None:\n                    area = math.pi/4.0*tank.diameter**2\n                    overshoot = cur_value - thresh_value\n"
